@@ -43,8 +43,8 @@ def obligations(tier):
         MTO = [(t, p, 3) for t in (0, 1, 12) for p in (0, 1, 2, 3, 4, 5, 6, 8, 9)]
     for t, p, k in MTO:
         L.append(ob("mto/t=%d/p=%d/k=%d" % (t, p, k), ".", "VerifC17MTo", [t, p, k, 0], covers=MTO_COV, max_seconds=900, max_paths=20000))
-    for t, p, k in ([(0, 2, 1)] if q else [(0, 2, 2), (1, 3, 2), (12, 0, 2), (0, 8, 2)]):
-        L.append(ob("mto/raw=2/t=%d/p=%d/k=%d" % (t, p, k), ".", "VerifC17MTo", [t, p, k, 2], covers=["one-value", "zero-values", "skip"], max_seconds=1200, max_paths=60000))
+    for t, p, k, rl in ([(0, 2, 1, 2)] if q else [(0, 2, 1, 2), (1, 3, 1, 2), (12, 0, 1, 2), (0, 8, 1, 2), (0, 2, 2, 1), (1, 3, 2, 1)]):
+        L.append(ob("mto/raw=%d/t=%d/p=%d/k=%d" % (rl, t, p, k), ".", "VerifC17MTo", [t, p, k, rl], covers=["one-value", "zero-values", "skip"], max_seconds=1200, max_paths=60000))
     # ---- marshal: scripted MarshalJSON
     for t, p in ((2, 0), (3, 2), (2, 8), (0, 3), (10, 6)):
         n = 2 if (q or p != 0) else 3
@@ -86,10 +86,9 @@ def obligations(tier):
     UF_COV = ["one-value", "zero-values", "user-error", "skip", "unsupported-after-read"]
     UF = [(0, 0, 2, 4, "7"), (3, 1, 3, 4, "[7,[]]"), (4, 2, 3, 4, '{"a":7}'), (0, 3, 3, 4, '"s"'), (3, 4, 2, 4, "7"), (4, 7, 2, 4, '"7"'), (0, 1, 4, 3, "[]"), (3, 11, 5, 2, "7")]
     if not q:
-        UF += [(0, 9, 3, 4, "[7,[]]"), (4, 10, 3, 4, '{"a":7}'), (0, 11, 5, 3, "7"), (3, 5, 3, 4, "[[]]"), (0, 6, 3, 4, "7"), (4, 8, 2, 3, '"7"')]
+        UF += [(0, 9, 3, 4, "[7,[]]"), (4, 10, 3, 4, '{"a":7}'), (0, 11, 5, 3, "7"), (3, 5, 3, 4, "[[]]"), (0, 6, 3, 4, "7")]
     for t, p, k, a, x in UF:
-        cov = UF_COV if p != 8 else ["user-error"]
-        L.append(ob("ufrom/t=%d/p=%d/k=%d/a=%d/%s" % (t, p, k, a, x), ".", "VerifC17UFrom", [t, p, k, a, x], covers=cov, max_seconds=900, max_paths=60000))
+        L.append(ob("ufrom/t=%d/p=%d/k=%d/a=%d/%s" % (t, p, k, a, x), ".", "VerifC17UFrom", [t, p, k, a, x], covers=UF_COV, max_seconds=900, max_paths=60000))
     # ---- unmarshal: UnmarshalJSON / UnmarshalText inputs
     for t, p, n, tm in ((1, 0, 2 if q else 3, ""), (0, 3, 2, ""), (1, 0, 0, ' "?" '), (1, 3, 0, "[?,?]")):
         L.append(ob("uj/t=%d/p=%d/n=%d/%s" % (t, p, n, tm), ".", "VerifC17UJ", [t, p, n, tm], covers=["called", "accepted"], max_seconds=900, max_paths=60000))
